@@ -1248,18 +1248,23 @@ class Unit:
     @lru_cache(maxsize=None)
     def as_ratio(self) -> Tuple["Unit", "Unit"]:
         """Returns this unit, split into a numerator and denominator"""
-        numerator, denominator = self.dimension.as_ratio()
+        numerator = {u: e for u, e in self.factors.items() if e >= 0} or {One: 1}
+        denominator = {u: -e for u, e in self.factors.items() if e < 0} or {One: 1}
+
+        # the dimension of each part is the product of the dimensions of its own
+        # factors; splitting this unit's dimension by the signs of its exponents
+        # would be wrong for factors whose dimensions have mixed signs (like m³/s)
+        numerator_dimension = Number
+        for unit, exponent in numerator.items():
+            numerator_dimension *= unit.dimension**exponent
+
+        denominator_dimension = Number
+        for unit, exponent in denominator.items():
+            denominator_dimension *= unit.dimension**exponent
+
         return (
-            Unit(
-                self.prefix,
-                {u: e for u, e in self.factors.items() if e >= 0} or {One: 1},
-                numerator,
-            ),
-            Unit(
-                IdentityPrefix,
-                {u: -e for u, e in self.factors.items() if e < 0} or {One: 1},
-                denominator,
-            ),
+            Unit(self.prefix, numerator, numerator_dimension),
+            Unit(IdentityPrefix, denominator, denominator_dimension),
         )
 
 
